@@ -503,6 +503,16 @@ func wfRangeReq(o *ObjectRangeRequest) bool {
 //@ ensures [C14]     ids:    idsBelow(u) && big_val(u.uploadID) >= 0
 //@ ensures           locks:  u.mu == 0
 
+//@ func (ListBucketPage).IsEmpty
+//@ props C04 C09
+//@ ensures [C04]      def:    ret0 == (!p.HasMarker && p.Marker == "" && p.MaxKeys == 0)
+//@ modifies nothing
+
+//@ func DefaultTimeSource
+//@ props C09
+//@ ensures            nn:     ret0 != nil
+//@ modifies nothing
+
 //@ func (*PrefixMatch).AsCommonPrefix
 //@ props C14 C03 C09
 //@ requires           m:      match != nil
